@@ -42,3 +42,23 @@ package view
 //@   at call Cut#1: after assume result2 <==> strings.Contains(arg0, "\n")
 //@   at loop 1 end: assert len(counters) == $prev + ite((strings.Contains(c, "\n") && !cfg.HasStack(meta["Program"], config.SpecStackName(c))) || (!strings.Contains(c, "\n") && !cfg.HasCounter(meta["Program"], c)), 1, 0)
 //@   modifies $prev
+
+// The summary of a weekly report is computed from all of the program's data,
+// counters and stack counters alike (the uploader filters both).
+//@ contract newTelemetryReport
+//@   requires t != nil && cfg != nil
+//@   requires forall i int :: 0 <= i && i < len(t.Programs) ==> t.Programs[i] != nil
+//@   loop 1: invariant t != nil && cfg != nil
+//@   loop 2: invariant counters != nil && p != nil && (forall k string :: visited(p.Counters, k) ==> in(k, counters))
+//@   loop 3: invariant counters != nil && p != nil && (forall k string :: in(k, p.Counters) ==> in(k, counters)) && (forall k string :: visited(p.Stacks, k) ==> in(k, counters))
+//@   at call summary#1: assert arg0 == cfg && (forall k string :: in(k, p.Counters) || in(k, p.Stacks) ==> in(k, arg2))
+//@   modifies heap, $prev
+
+// A chart is flagged active exactly when the configuration lists its name for
+// the program as a counter, as a bucketed counter prefix, or as a stack counter.
+//@ contract charts
+//@   requires cfg != nil
+//@   at call append#2: assert count.Active == (cfg.HasCounter(pg.Name, c.Name) || cfg.HasCounterPrefix(pg.Name, c.Name) || cfg.HasStack(pg.Name, c.Name)) && prog.Active == cfg.HasProgram(pg.Name)
+//@   loop 1: invariant cfg != nil && result != nil
+//@   loop 2: invariant cfg != nil && result != nil && prog != nil
+//@   modifies heap
